@@ -112,6 +112,9 @@ def gen_name(rng, used, dup_ok=True):
 def gen_ty(rng, depth, used, root=False, p_or=0.75, annot_p=1.0):
     tn = rng.choice(['t', 'default', 'a']) if rng.random() < 0.08 else None
     fn = gen_name(rng, used) if rng.random() < annot_p else None
+    if depth > 0 and not root and rng.random() < 0.12:
+        # an enum-like union (every leaf `unit`), annotated or not, with annotated or unannotated constants
+        return gen_enum_tree(rng, rng.choice([1, 1, 2]), used, fn, tn, rng.choice([0.0, 0.5, 1.0, 1.0]))
     if depth > 0 and rng.random() < p_or:
         left = gen_ty(rng, depth - 1, used, p_or=p_or * 0.8, annot_p=annot_p)
         right = gen_ty(rng, depth - 1, used, p_or=p_or * 0.8, annot_p=annot_p)
@@ -120,6 +123,15 @@ def gen_ty(rng, depth, used, root=False, p_or=0.75, annot_p=1.0):
     while s[0] == 'or':   # an `or` directly under a union node is a union node, not a leaf
         s = gen_sty(rng)
     return ('leaf', fn, s, tn)
+
+
+def gen_enum_tree(rng, depth, used, fn, tn, annot_p):
+    def leaf_or_node(d):
+        f = gen_name(rng, used, dup_ok=False) if rng.random() < annot_p else None
+        if d > 0 and rng.random() < 0.5:
+            return gen_enum_tree(rng, d - 1, used, f, None, annot_p)
+        return ('leaf', f, ('unit',), None)
+    return ('or', fn, leaf_or_node(depth - 1), leaf_or_node(depth - 1), tn)
 
 
 def annots(t):
@@ -459,6 +471,9 @@ FIXED_TYPES = [
     ('or', 'a', ('leaf', 'a', ('nat',), None), ('leaf', None, ('int',), None), None),
     ('or', None, ('leaf', 'a', ('nat',), None), ('leaf', 'a', ('int',), None), None),
     ('or', 'r', ('leaf', 'a', ('nat',), None), ('leaf', 'a', ('int',), None), None),
+    # annotated enum-like inner unions (all leaves unit)
+    ('or', None, ('or', 'action', ('leaf', 'start', ('unit',), None), ('leaf', 'stop', ('unit',), None), None), ('leaf', 'set', ('nat',), None), None),
+    ('or', None, ('leaf', 'set', ('nat',), None), ('or', 'action', ('leaf', None, ('unit',), None), ('or', 'deep', ('leaf', 'x', ('unit',), None), ('leaf', 'y', ('unit',), None), None), None), None),
     # non-union roots
     ('leaf', None, ('nat',), None), ('leaf', 'foo', ('unit',), None), ('leaf', '', ('unit',), None), ('leaf', 'default', ('pair', ('or', ('nat',), ('int',)), ('nat',)), None),
     # bare % annotations
@@ -525,7 +540,7 @@ def run(ctx: lib.Ctx) -> None:
         ctx.corpus_cases += 1
     for t in FIXED_TYPES:
         add_type(t, 8, 'fixed')
-    ntypes = ctx.n(260, 6000)
+    ntypes = ctx.n(200, 6000)
     for i in range(ntypes):
         depth = rng.choice([1, 1, 2, 2, 3, 3, 4, 5])
         k = rng.random()
@@ -540,7 +555,7 @@ def run(ctx: lib.Ctx) -> None:
         add_type(t, ctx.n(5, 8), 'gen')
 
     bad_groups = ctx.coq_mismatches('ep', IMPORTS, 'fun c => map (std_run (fst c)) (snd c)', 'list_eqb std_answer_eqb',
-                                    'uty sty * list query', 'list (answer sty)', cases, shard=60)
+                                    'uty sty * list query', 'list (answer sty)', cases, shard=35)
     bad = []
     for g in bad_groups[:3]:     # pin the disagreement down to single queries (first few groups suffice for the replay)
         lo, hi = groups[g]
